@@ -47,6 +47,8 @@ def stop_observe():
 
 FOLDERS = ["", "a", "a/b", "c", "nested.csv"]
 FILES = ["f1.csv", "f2.csv", "g.csv", "h.csv", "in_1.csv", "in_2.csv", "notes.txt", "k.CSV"]
+# extensions in other letter cases: the file-name pattern and the file reader both ignore case
+CASED_FILES = ["k.CSV", "Mix.Csv", "in_3.CSV"]
 # names a folder listing must skip: an office lock file (default pattern) and the start pattern in mid-name
 SKIPPED_FILES = ["~$lock.csv", "old_in_9.csv"]
 
@@ -60,7 +62,7 @@ def gen_tree(rng, hostile=False, max_files=6):
     used = set()
     for k in range(nfiles):
         fo = rng.choice(folders)
-        nm = rng.choice(FILES[:6] + SKIPPED_FILES) if rng.random() < 0.85 else rng.choice(SKIPPED_FILES)
+        nm = rng.choice(FILES[:6] + CASED_FILES + SKIPPED_FILES) if rng.random() < 0.85 else rng.choice(SKIPPED_FILES)
         rel = (fo + "/" + nm) if fo else nm
         if rel in used:
             continue
